@@ -90,6 +90,8 @@ fn shapes(thorough: bool) -> Vec<Shape> {
         Shape { name: "two batches, mixed heights", params: p(2, 0, 1, 1, 0, 1), batches: vec![vec![(4, 1, vec![0, 1])], vec![(4, 2, vec![0]), (2, 1, vec![0])]] },
         Shape { name: "arity 4 (log 2), final poly len 2", params: p(1, 1, 2, 1, 0, 0), batches: vec![vec![(5, 1, vec![0]), (3, 1, vec![0])]] },
         Shape { name: "arity 8 then smaller, blowup 2", params: p(2, 0, 3, 1, 0, 0), batches: vec![vec![(5, 1, vec![0]), (4, 1, vec![1])]] },
+        Shape { name: "height-1 matrix next to taller ones", params: p(2, 0, 1, 1, 0, 0), batches: vec![vec![(0, 2, vec![0]), (3, 1, vec![0]), (4, 1, vec![0])]] },
+        Shape { name: "height-1 and height-2 matrices, distinct points", params: p(1, 0, 1, 1, 0, 0), batches: vec![vec![(0, 1, vec![0]), (1, 1, vec![1]), (3, 2, vec![0])]] },
         Shape { name: "arity 16", params: p(1, 0, 4, 1, 0, 0), batches: vec![vec![(5, 1, vec![0])]] },
         Shape { name: "arity 32", params: p(1, 0, 5, 1, 0, 0), batches: vec![vec![(6, 1, vec![0])]] },
     ];
@@ -173,8 +175,17 @@ fn make_setup(shape: &Shape, seed: u64) -> Setup {
     }
 }
 
+#[derive(Clone, Debug, Default)]
+struct Frozen {
+    alpha: [u64; 4],
+    betas: Vec<[u64; 4]>,
+    indices: Vec<usize>,
+}
+
 #[derive(Default)]
 struct Run {
+    /// shadows of (alpha, betas, query indices) as fed to the circuit
+    challenges: Option<Frozen>,
     native_ok: bool,
     native_err: String,
     circuit_ok: bool,
@@ -191,7 +202,22 @@ type SCommit = <SPcs as Pcs<SCh, SChallenger>>::Commitment;
 /// Execute both verifiers on the symbolic proof. `tamper`: (variable, shadow value).
 /// `forced`: decisions (by index) replayed from the honest run, so that the complete check lists
 /// are recorded even when the altered shadow point violates some of them.
+fn ext_shadow(e: &SCh) -> [u64; 4] {
+    let cs: &[SF] = e.as_basis_coefficients_slice();
+    core::array::from_fn(|i| with_arena(|a| a.shadow(cs[i].h())))
+}
+fn ext_const(c: &[u64; 4]) -> SCh {
+    let cs: Vec<SF> = c.iter().map(|x| SF::from_u64(*x)).collect();
+    SCh::from_basis_coefficients_slice(&cs).unwrap()
+}
+
 fn run_once(s: &Setup, tamper: Option<(u32, u64)>, forced: Option<&std::collections::HashMap<usize, bool>>) -> Run {
+    run_once_frozen(s, tamper, forced, None)
+}
+
+/// `frozen`: the circuit's challenge / index inputs are these constants instead of the values
+/// derived from the (possibly altered) transcript.
+fn run_once_frozen(s: &Setup, tamper: Option<(u32, u64)>, forced: Option<&std::collections::HashMap<usize, bool>>, frozen: Option<&Frozen>) -> Run {
     reset::<BabyBearCfg>();
     if let Some(f) = forced {
         with_arena(|a| a.forced = f.clone());
@@ -283,7 +309,7 @@ fn run_once(s: &Setup, tamper: Option<(u32, u64)>, forced: Option<&std::collecti
     }
 
     // ---------------- transcript replay for the circuit's public challenges ----------------
-    let r = std::panic::catch_unwind(std::panic::AssertUnwindSafe(|| -> Result<(Vec<Event>, usize), String> {
+    let r = std::panic::catch_unwind(std::panic::AssertUnwindSafe(|| -> Result<(Vec<Event>, usize, Frozen), String> {
         let mut v = before.clone();
         for b in &sopened {
             for m in b {
@@ -313,12 +339,16 @@ fn run_once(s: &Setup, tamper: Option<(u32, u64)>, forced: Option<&std::collecti
         }
         let _ = v.check_witness(pr.query_pow, sproof.query_pow_witness);
         let log_max_height = total_log_reduction + pr.log_blowup + pr.log_final_poly_len;
-        let bits: Vec<Vec<SCh>> = (0..sproof.query_proofs.len())
-            .map(|_| {
-                let index: usize = v.sample_bits(log_max_height);
-                (0..log_max_height).map(|k| SCh::from_bool((index >> k) & 1 == 1)).collect()
-            })
-            .collect();
+        let mut indices: Vec<usize> = (0..sproof.query_proofs.len()).map(|_| v.sample_bits(log_max_height)).collect();
+        let mut alpha = alpha;
+        let mut betas = betas;
+        if let Some(fz) = frozen {
+            alpha = ext_const(&fz.alpha);
+            betas = fz.betas.iter().map(ext_const).collect();
+            indices = fz.indices.clone();
+        }
+        let challenges = Frozen { alpha: ext_shadow(&alpha), betas: betas.iter().map(ext_shadow).collect(), indices: indices.clone() };
+        let bits: Vec<Vec<SCh>> = indices.iter().map(|index| (0..log_max_height).map(|k| SCh::from_bool((index >> k) & 1 == 1)).collect()).collect();
 
         // ---------------- circuit ----------------
         let mut builder = CircuitBuilder::<SCh>::new();
@@ -359,10 +389,11 @@ fn run_once(s: &Setup, tamper: Option<(u32, u64)>, forced: Option<&std::collecti
             format!("run: {}", &s[..s.len().min(160)])
         });
         res?;
-        Ok((events()[e1..].to_vec(), n_ops))
+        Ok((events()[e1..].to_vec(), n_ops, challenges))
     }));
     match r {
-        Ok(Ok((evs, n_ops))) => {
+        Ok(Ok((evs, n_ops, ch))) => {
+            out.challenges = Some(ch);
             out.circuit_ok = true;
             out.circuit_events = evs;
             out.n_ops = n_ops;
@@ -404,7 +435,7 @@ fn hold_at_shadow(fms: &[Fm]) -> bool {
 }
 
 fn main() {
-    std::panic::set_hook(Box::new(|_| {}));
+    if std::env::var("VERIF_PANIC").is_err() { std::panic::set_hook(Box::new(|_| {})); }
     let args = parse_args();
     let mut sh = Shard::new();
     sh.functions = [
@@ -617,14 +648,19 @@ fn main() {
             let (c_arith, c_merkle, c_path) = split_events(&honest.circuit_events);
             let mut c_all = c_arith.clone();
             c_all.extend(c_merkle.iter().cloned());
-            let mut candidates: Vec<(u32, u64)> = Vec::new();
+            let mut candidates: Vec<(u32, u64, bool)> = Vec::new();
             solver.set_timeout(if thorough { 20_000 } else { 5_000 });
             for v in 0..n_vars as u32 {
-                if (v as usize) % args.nshards != args.shard || transcript_vars.contains(&v) {
+                if (v as usize) % args.nshards != args.shard {
                     continue;
                 }
+                // elements feeding the transcript: decided with the challenges and query indices
+                // held at their honest values (the arithmetic circuit takes them as inputs)
+                let frozen = transcript_vars.contains(&v);
                 sh.bump("c07.allvalues.obligations");
+                if frozen { sh.bump("c07.allvalues.obligations_frozen_challenges"); }
                 let mut uni = Uni::new(v, P);
+                uni.freeze_uf = frozen;
                 let mut enc = |fms: &[Fm], uni: &mut Uni| -> Option<(Vec<Vec<u64>>, Vec<Vec<u64>>)> {
                     let mut polys = Vec::new();
                     let mut dens = Vec::new();
@@ -682,13 +718,13 @@ fn main() {
                     sh.counters.insert("c07.allvalues.max_degree".into(), maxdeg as f64);
                 }
                 let conj = |ps: &Vec<Vec<u64>>| -> String {
-                    if ps.is_empty() { "true".into() } else { format!("(and true {})", ps.iter().map(|d| format!("(= (mod {} {P}) 0)", up_smt(d))).collect::<Vec<_>>().join(" ")) }
+                    if ps.is_empty() { "true".into() } else { format!("(and true {})", ps.iter().map(|d| up_zero_smt(d, P)).collect::<Vec<_>>().join(" ")) }
                 };
                 solver.push();
                 solver.raw("(declare-const t Int)");
                 solver.raw(&format!("(assert (and (<= 0 t) (< t {P})))"));
                 for d in &side {
-                    solver.raw(&format!("(assert (not (= (mod {} {P}) 0)))", up_smt(d)));
+                    solver.raw(&format!("(assert (not {}))", up_zero_smt(d, P)));
                 }
                 solver.raw(&format!("(assert (xor {} {}))", conj(&np), conj(&cp)));
                 let r = solver.check();
@@ -707,7 +743,7 @@ fn main() {
                         }
                     }
                     SatResult::Sat(_) => match tval {
-                        Some(t) => candidates.push((v, t)),
+                        Some(t) => candidates.push((v, t, frozen)),
                         None => { sh.bump("c07.allvalues.undecided"); }
                     },
                     SatResult::Unknown(_) => {
@@ -717,7 +753,24 @@ fn main() {
                 }
             }
             // replay every candidate on the real code (both verifiers re-executed with the value)
-            for (v, t) in candidates {
+            for (v, t, frozen) in candidates {
+                if frozen {
+                    // real circuit run with the honest challenges as inputs and the altered element;
+                    // real native run on the same altered inputs
+                    let Some(ch) = honest.challenges.as_ref() else { continue };
+                    let tr = run_once_frozen(&setup, Some((v, t)), None, Some(ch));
+                    let name = with_arena(|a| a.var_names.get(v as usize).cloned().unwrap_or_default());
+                    if tr.circuit_ok && !tr.native_ok {
+                        sh.bump("c07.allvalues.sat");
+                        sh.bump("c07.violations_confirmed");
+                        violations.push(json!({"property": "C07", "kind": "altered-element-accepted-by-circuit", "signature": "C07/altered-element-accepted-by-circuit",
+                            "detail": format!("variable #{v} ({name}) set to {t}: the native verifier rejects ({}), the circuit run with the honest challenges as inputs succeeds (found by z3, replayed on both verifiers)", tr.native_err), "program_text": label, "variable": v, "value": t, "confirmed_by_native_replay": true}));
+                    } else {
+                        sh.bump("c07.allvalues.sat_frozen_unconfirmable");
+                        if sh.undecided.len() < 20 { sh.undecided.push(json!({"what": "frozen-challenge model not confirmable on the real native verifier (it recomputes the challenges)", "variable": v, "value": t, "circuit_ok": tr.circuit_ok, "native_ok": tr.native_ok, "shape": label})); }
+                    }
+                    continue;
+                }
                 let tr = run_once(&setup, Some((v, t)), Some(&forced));
                 let name = with_arena(|a| a.var_names.get(v as usize).cloned().unwrap_or_default());
                 if !tr.native_ok || !tr.circuit_ok {
